@@ -230,7 +230,7 @@ def main():
             stepfail += 1        # the integrator gave up on the ODE itself (e.g. a fixed step too large for CPodes)
             continue
         if bad and "at least Model" in json.dumps(bad[0]) and any(
-                m["op"] == "diff" and ms[m["of"]]["op"] in ("plus", "minus", "scale") and stage_of(ms, m["of"]) == 2 for m in ms):
+                m["op"] == "diff" and ms[m["of"]]["op"] in ("plus", "minus", "scale") and stage_of(ms, m["of"]) <= 2 for m in ms):
             rep.violation("init-exception/Differentiate-approx-of-Model-stage-operand", {"run": run}, json.dumps(bad[0])[:300])
             continue
         if bad:
